@@ -268,6 +268,24 @@ def roundtrip_extra(pid, lang):
     return extra
 
 
+def c18_extra(tier, seed, outdir, broken, violations, findings_seen):
+    import cli
+    ok, log = cli.build_cli()
+    if not ok:
+        broken.append({"kind": "cli-build", "detail": log})
+        return {}
+    stats, failures = cli.determinism_exploration(40 if tier == "quick" else 1500, seed)
+    for f in failures[:10]:
+        violations.append(dict(f, property="C18", kind="output differs between two fresh processes"))
+    # fixpoint runs that hit the pass bound are reported here (termination is not proved)
+    imp = (outdir / "simplify.impl")
+    timeouts = sum(1 for l in imp.read_text().splitlines() if l.startswith("(timeout")) if imp.exists() else 0
+    if timeouts:
+        violations.append({"property": "C18", "kind": "fixpoint simplification exceeded the pass bound of 64 on the implementation", "count": timeouts})
+    stats["fixpoint_runs_hitting_pass_bound"] = timeouts
+    return stats
+
+
 def c16_extra(tier, seed, outdir, broken, violations, findings_seen):
     import cli
     ok, log = cli.build_cli()
@@ -350,6 +368,7 @@ PROPS = {
         "assumptions": COMMON_ASSUME,
     },
     "C18": {
+        "extra": c18_extra,
         "suites": [("simplify", 1500, 40000)],
         "rule": "as C07(b): every portfolio x strategy on seeded formulas; the harness runs its own bounded fixpoint loop (64 passes) and, when it converges, "
                 "the real Apply::apply_fixpoint, and requires equal results; any timeout is reported",
